@@ -206,6 +206,13 @@ def check_tags(secs, text):
             return "tags", {"key": key, "expected": exp.get(key, []), "found": found.get(key, [])}
     if not data_ok(secs, r["ok"]):
         return "data", {"expected": ld.expected_data(secs), "found": r["ok"]["data"]}
+    # ~Other is free text: EVERY physical line under its title (blank ones, lines that look like comments or items) is kept, stripped
+    others = [s for s in secs if s["kind"] == "O"]
+    if len(others) == 1 and all("\n" not in b[0] and "\r" not in b[0] for b in others[0]["body"]):
+        exp_text = "\n".join(b[0].strip() for b in others[0]["body"])
+        got = r["ok"]["sections"].get("Other")
+        if got != exp_text:
+            return "other-text", {"expected": exp_text, "found": got}
     return None, r
 
 
@@ -214,10 +221,16 @@ def plant(rng, secs):
     # a curve planted in ~C legitimately changes the number of columns a file DECLARED as wrapped is reshaped to
     wrapped = any(b[1] == "steer" and "WRAP" in b[0] and "YES" in b[0] for b in secs[0]["body"])
     cands = [i for i, s in enumerate(secs) if s["kind"] in ("P", "X") or (s["kind"] == "C" and not wrapped)]
+    # ... and in the OTHER steering section: NULL steers from ~W only, VERS / WRAP / DLM from ~V only
+    cands += [i for i, s in enumerate(secs) if s["kind"] in ("V", "W")]
     if not cands:
         return None
     i = rng.choice(cands)
     name = rng.choice(ld.STEERING)
+    if secs[i]["kind"] == "V":
+        name = "NULL"
+    elif secs[i]["kind"] == "W":
+        name = rng.choice(["VERS", "WRAP", "DLM"])
     a = [s for s in secs if s["kind"] == "A"]
     cell = "1.25" if (a and a[0]["ncols"] > 1 and a[0]["nrows"] > 0 and [0, 1] not in [list(x) for x in a[0]["nullcells"]]) else "0.25"
     value = {"VERS": rng.choice(["1.2", "abc", "3.0", "2.0"]), "WRAP": rng.choice(["YES", "NO"]), "NULL": rng.choice([cell, "100.25", "-1"]),
@@ -232,7 +245,8 @@ def plant(rng, secs):
 
 
 def drop_planted(items, name):
-    return [it for it in items if not (it[0].upper() == name.upper() and it[3] == "planted")]
+    # (in a version 1.2 ~Well section the description stands before the colon: the tag comes back as the VALUE)
+    return [it for it in items if not (it[0].upper() == name.upper() and "planted" in (it[3], it[2]))]
 
 
 def oracle(run, secs, eol, fin):
@@ -255,18 +269,27 @@ def oracle(run, secs, eol, fin):
     if pl:
         secs3, i, name, value = pl
         text3 = ld.render(secs3, eol, fin)
-        r3 = ld.read_full(text3)
         key = ld.route_key(secs3[i])
-        ok = "ok" in r3
-        if ok:
-            s3 = dict(r3["ok"]["sections"])
-            if key in s3:
-                s3[key] = drop_planted(s3[key], name)
-            ok = s3 == base["sections"]
-            n = len(base["data"]) if secs3[i]["kind"] != "C" else len(base["data"])
-            ok = ok and r3["ok"]["data"][:n] == base["data"] if secs3[i]["kind"] == "C" else ok and r3["ok"]["data"] == base["data"]
-        if not ok:
-            run.fail("plant", {"text": text, "planted": text3, "name": name, "value": value, "section": key}, {"base": base, "planted": r3})
+        for kw in ({}, {"engine": "normal"}):          # (a planted DLM shows in the engine that splits lines itself)
+            if kw:
+                rb = ld.read_full(text, **kw)
+                if "err" in rb:
+                    continue
+                base_k = rb["ok"]
+            else:
+                base_k = base
+            r3 = ld.read_full(text3, **kw)
+            ok = "ok" in r3
+            if ok:
+                s3 = dict(r3["ok"]["sections"])
+                if key in s3:
+                    s3[key] = drop_planted(s3[key], name)
+                ok = s3 == base_k["sections"]
+                n = len(base_k["data"])
+                ok = ok and r3["ok"]["data"][:n] == base_k["data"] if secs3[i]["kind"] == "C" else ok and r3["ok"]["data"] == base_k["data"]
+            if not ok:
+                run.fail("plant", {"text": text, "planted": text3, "name": name, "value": value, "section": key, "kw": kw}, {"base": base_k, "planted": r3})
+                break
 
 
 # ---------------------------------------------------------------------------------------------- correspondence
@@ -423,7 +446,8 @@ def replay(run, payload):
         a, b = ld.read_full(c["text"]), ld.read_full(c["permuted"])
         return "ok" in a and "ok" in b and a["ok"] == b["ok"]
     if clause == "plant":
-        a, b = ld.read_full(c["text"]), ld.read_full(c["planted"])
+        kw = c.get("kw", {})
+        a, b = ld.read_full(c["text"], **kw), ld.read_full(c["planted"], **kw)
         if "ok" not in a or "ok" not in b:
             return False
         s3 = dict(b["ok"]["sections"])
